@@ -39,6 +39,8 @@ def shape(parts):
             c = t.args[0]
             v = c.args[0] if c.op == "int" else (c.args[0].args[0] if c.op == "cast" and c.args[0].op == "int" else "?")
             out.append("len%s:%s%s" % (t.args[1], t.args[2], v))
+        elif t.op == "bytes" and len(t.args[0]) == 4:
+            out.append("len2:be%d" % int(t.args[0], 16))      # a constant 2-byte big-endian length (e.g. a const prefix)
         elif t.op == "compress":
             out.append("point")
         elif t.op == "owf":
